@@ -154,7 +154,12 @@ def run_rep(np, ode, rng, kinds, rf, order, ic, prm, frc, q0, Dm, Vm, Am, krf, f
             Q, _ = np.linalg.qr(rng.standard_normal((ne, ne)))
             Te = Q
         else:
-            Te = np.eye(ne) + 0.3 * rng.standard_normal((ne, ne))
+            # a congruence with a moderate condition number: the answer's sensitivity to one ulp of the coupled matrices grows like
+            # cond(T)^2 (measured: 1e-11 at cond 165), so an occasional nearly singular draw would test conditioning, not the solver
+            for _ in range(50):
+                Te = np.eye(ne) + 0.3 * rng.standard_normal((ne, ne))
+                if np.linalg.cond(Te) <= 30:
+                    break
         T[np.ix_(elpos, elpos)] = Te
         M = T.T @ M @ T; B = T.T @ B @ T; K = T.T @ K @ T; F = T.T @ F
     Ti = np.linalg.inv(T)
@@ -238,6 +243,7 @@ def body(run: Run, replay):
                 "step terms at 50 digits + equation-of-motion residual. distinct non-trivial = (problem, representation) pairs")
     run.assumptions = ["terms evaluated with mpmath at 50 digits; tolerance 1e-9 of the history scale (2e-3 where a rigid-body mode is "
                        "damped below the documented cut-off)", "w*h in [0.05, 2.5] (the well-conditioned range the statement names)",
+                       "coupled representations are congruences T^T M T with cond(T) <= 30 (sensitivity of the answer to one ulp of the matrices grows like cond(T)^2)",
                        "statement is tested on enumerated cases, not proved"]
     jobs = []
     for pi, (problem, reps, icrule) in enumerate(probs):
